@@ -334,7 +334,7 @@ func raceSite(s string) string {
 	for _, ln := range strings.Split(s, "\n") {
 		ln = strings.TrimSpace(ln)
 		if strings.HasPrefix(ln, "github.com/hashicorp/nodeenrollment/") && !strings.Contains(ln, "zz_verif") {
-			if i := strings.Index(ln, "("); i > 0 {
+			if i := strings.LastIndex(ln, "("); i > 0 {
 				ln = ln[:i]
 			}
 			return strings.TrimPrefix(ln, "github.com/hashicorp/nodeenrollment/")
